@@ -23,7 +23,8 @@ From ApiFu Require Import Base.Sexp.
 From ApiFu Require Import Val.Values Val.MapFacts Val.CoerceModel Val.CoerceSpec Val.CoerceProofs Val.CoerceRefine Val.BridgeC04 Val.BridgeC04Proofs Val.BridgeC04Doc.
 From ApiFu Require Vld.Ast Vld.ValidatorModel Vld.ValidSpec Vld.Hyps Vld.TypeInfoPure Vld.ProofsCommon Vld.ProofsArguments Vld.ProofsValues Vld.ProofsOrder Vld.ValidatorProofs.
 From ApiFu Require Cost.CostModel.
-From ApiFu Require Import Cost.CostArgs Cost.CostArgsProofs Cost.CostTrace Cost.CostTraceProofs.
+From ApiFu Require Import Cost.CostArgs Cost.CostArgsProofs Cost.CostTrace Cost.CostTraceProofs Cost.CostC04Usage.
+From ApiFu Require Vld.ProofsTypeInfoValues.
 Import ListNotations.
 
 Section Reference.
@@ -260,3 +261,77 @@ Section Nodes.
       + intros f Hf. destruct (Hschema f Hf) as (H1 & H2). split; [exact H1|]. split; [exact H2|apply Husage; exact Hf].
   Qed.
 End Nodes.
+
+(** ** round 5, continued: the third implication as well.  [field_usage_ok] follows from C04's
+    [usage_errs] (the errors of validateVariables' visitor inside the annotated argument value,
+    C04_variable_usages_in_value) being empty on the translation, jointly with the values rule
+    ([CostC04Usage.usage_from_c04]).  All three facts the every-call theorems need are now derived from
+    C04's per-node functions run on the translation of the request; what is left is C05's gap (b)
+    alone: that the whole-document verdict yields these per-node premises. *)
+Section Nodes3.
+  Variable C : Type.
+  Variable E : env.
+  Variable dt : bytes -> option bytes.
+  Variable ops : list (aop C).
+  Variable frs : list (bytes * anode C).
+  Variable opname : bytes.
+  Variable raw : list (name * jval).
+  Variable o : aop C.
+  (** C04's annotated variable definitions of the chosen operation *)
+  Variable vars' : list Ast.vardef.
+
+  (** validateVariables' visitor is silent inside every argument value of the selection; every
+      argument given is defined *)
+  Definition c04_usage_silent (f : afield C) : Prop :=
+    forall a l, In (a, l) (af_args f) ->
+      exists d, aget a (af_argdefs f) = Some d /\
+        nil_errs (ProofsTypeInfoValues.usage_errs true (tr_env E) vars' false
+                    (Some (tr_sty (in_type d))) (arg_loc_default true d) (tr_lit l)) = true.
+
+  Lemma field_usage_from_c04 (f : afield C) :
+    bridgeable E = true -> (no_float E = true \/ float_leaves_agree dt) ->
+    Forall2 vardef_rel (ao_vardefs o) vars' ->
+    (forall d, In d (ao_vardefs o) -> type_known E (vd_type d) = true) ->
+    c04_node_silent C E f -> c04_usage_silent f ->
+    field_usage_ok C E (ao_vardefs o) f = true.
+  Proof.
+    intros HB HF Hv Hk (_ & Hacc) Hu. unfold field_usage_ok. apply forallb_forall. intros [a l] Hin.
+    destruct (Hu a l Hin) as (d & Hd & He). cbn [fst snd]. rewrite Hd.
+    apply (usage_from_c04 E dt (ao_vardefs o) vars' Hv Hk l (in_type d) true (arg_loc_default true d)); [|exact He].
+    rewrite <- (bridge_bridgeable E dt HB HF). apply (Hacc (a, l) d Hin Hd).
+  Qed.
+
+  Theorem c04_nodes_cost_calls_all skip_zero fuel dc ctx0 max :
+    bridgeable E = true -> (no_float E = true \/ float_leaves_agree dt) ->
+    chosen_op C ops opname = Some o ->
+    env_ok E = true ->
+    (* C04's per-node functions on the translation of the request *)
+    (forall f, in_request C o frs f -> c04_node_silent C E f /\ c04_usage_silent f) ->
+    c04_defaults_silent C E o ->
+    Forall2 vardef_rel (ao_vardefs o) vars' ->
+    (* what C04's vardefs_loop reports otherwise (EVarDup, EVarUnknownType) *)
+    has_dup (map vd_name (ao_vardefs o)) = false ->
+    (forall d, In d (ao_vardefs o) -> type_known E (vd_type d) = true) ->
+    (* the schema *)
+    (forall f, in_request C o frs f ->
+               has_dup (map fst (af_argdefs f)) = false /\
+               forall ad, In ad (af_argdefs f) -> default_ok E (snd ad) = true) ->
+    (* the parser; Go *)
+    (forall def dflt, In def (ao_vardefs o) -> vd_default def = Some dflt -> lit_vars dflt = []) ->
+    (forall p, In p raw -> jval_ok (snd p) = true) ->
+    forall c, In c (snd (validate_cost_trace C E dt skip_zero fuel dc ctx0 ops frs opname raw max)) ->
+      args_conform_b E (af_argdefs (c_field c)) (c_args c) = true /\
+      exists vv,
+        ref_variable_values E dt (ao_vardefs o) raw = Some vv /\
+        ref_argument_values E dt (af_argdefs (c_field c))
+          (map (fun p => match p with (k, l) => (k, abs_lit vv l) end) (af_args (c_field c))) = Some (c_args c).
+  Proof.
+    intros HB HF Ho HE Hnodes Hdefs Hvars Hnd Hknown Hschema Hclosed Hraw c Hin.
+    destruct (c04_nodes_cost_calls C E dt ops frs opname raw o skip_zero fuel dc ctx0 max HB HF Ho HE
+                (fun f Hf => proj1 (Hnodes f Hf)) Hdefs Hschema Hclosed Hraw c Hin) as (Href & Hconf).
+    split; [|exact Href].
+    apply Hconf; [exact Hnd|].
+    intros f Hf. destruct (Hnodes f Hf) as (Hn & Hu).
+    apply (field_usage_from_c04 f HB HF Hvars Hknown Hn Hu).
+  Qed.
+End Nodes3.
